@@ -69,4 +69,11 @@ META = {
                     "dof <= 6 (value/origin/fixed dims kept, free-only motion, gather/scatter against the harness' own bookkeeping); AnyManifold deep copies.",
             "note": "Element-wise references are the library's own per-element calls (judged by C01-C02); segment bookkeeping is the harness'. Sampled executions only.",
             "technique": "runtime monitoring: axiom monitors + differential container-vs-element checks with bitwise snapshots, ASan/UBSan"},
+    "C19": {"text": "Exploration: ad_sparse/dr_exp_sparse/dr_expinv_sparse/d2r_exp_sparse/d2r_expinv_sparse into host matrices that contain the shifted "
+                    "published pattern plus random sentinel entries, at block offsets 0..12; value/inner/outer arrays are snapshotted before and after: "
+                    "block == dense exactly (missing pattern entries count as zeros), sentinels untouched, structure and compression unchanged; the "
+                    "union of dense non-zeros over all sampled a must lie inside the pattern; two TUs odr-use the inline patterns in opposite orders "
+                    "(a crash before main is reported as a static-init violation).",
+            "note": "Dense routines are the value reference (they are judged by C03-C05). ASan catches the reallocation a missing pattern entry would cause through coeffRef; library asserts (isCompressed) are active.",
+            "technique": "runtime monitoring: guard/sentinel snapshots of sparse storage + differential dense-vs-sparse, ASan/UBSan"},
 }
